@@ -948,7 +948,7 @@ func (l Float32List) String() string {
 		if i > 0 {
 			buf = append(buf, ", "...)
 		}
-		buf = strconv.AppendFloat(buf, float64(l.At(i)), 'g', -1, 32)
+		buf = appendFloat(buf, float64(l.At(i)), 32)
 	}
 	buf = append(buf, ']')
 	return string(buf)
@@ -992,10 +992,25 @@ func (l Float64List) String() string {
 		if i > 0 {
 			buf = append(buf, ", "...)
 		}
-		buf = strconv.AppendFloat(buf, l.At(i), 'g', -1, 64)
+		buf = appendFloat(buf, l.At(i), 64)
 	}
 	buf = append(buf, ']')
 	return string(buf)
+}
+
+// appendFloat appends f in Cap'n Proto schema format: infinities and NaN
+// are spelled inf, -inf and nan (strconv's "+Inf" and "NaN" are not values
+// of the format).
+func appendFloat(buf []byte, f float64, bits int) []byte {
+	switch {
+	case math.IsNaN(f):
+		return append(buf, "nan"...)
+	case math.IsInf(f, 1):
+		return append(buf, "inf"...)
+	case math.IsInf(f, -1):
+		return append(buf, "-inf"...)
+	}
+	return strconv.AppendFloat(buf, f, 'g', -1, bits)
 }
 
 type listFlags uint8
